@@ -20,7 +20,7 @@ package cty
 //@   let rn (rnum_at (unbox<*cty.refinementNumber> w))
 //@   panics[C01] (is_marked v)
 //@   ensures[C01] ty: (= (vr_ty result) (vty v))
-//@   ensures[C01] ok: (rfn_ok (vty v) w)
+//@   ensures[C01] ok: (rng_ok (vty v) w)
 //@   ensures[C01] refined: (=> (and (is_unk_payload v) (not (= (rfn_of v) nil.Any))) (= w (rfn_of v)))
 //@   ensures[C01] unrefined: (=> (and (is_unk_payload v) (= (rfn_of v) nil.Any)) (and ((_ is box<*cty.refinementNullable>) w) (= (rfn_null w) 0)))
 //@   ensures[C01] null: (=> (and (not (is_unk_payload v)) (is_null v)) (and ((_ is box<*cty.refinementNullable>) w) (= (rfn_null w) 84)))
@@ -29,7 +29,7 @@ package cty
 //
 //@ func (cty.ValueRange).NumberLowerBound
 //@   tags C01 C05
-//@   requires (rfn_ok (vr_ty r) (vr_raw r))
+//@   requires (rng_ok (vr_ty r) (vr_raw r))
 //@   let w (vr_raw r)
 //@   let rn (rnum_at (unbox<*cty.refinementNumber> w))
 //@   let set (and ((_ is box<*cty.refinementNumber>) w) (not (= (cty.refinementNumber.min rn) nilval)))
@@ -40,7 +40,7 @@ package cty
 //
 //@ func (cty.ValueRange).NumberUpperBound
 //@   tags C01 C05
-//@   requires (rfn_ok (vr_ty r) (vr_raw r))
+//@   requires (rng_ok (vr_ty r) (vr_raw r))
 //@   let w (vr_raw r)
 //@   let rn (rnum_at (unbox<*cty.refinementNumber> w))
 //@   let set (and ((_ is box<*cty.refinementNumber>) w) (not (= (cty.refinementNumber.max rn) nilval)))
@@ -68,10 +68,6 @@ package cty
 //@   panics[C02] (or (is_marked val) (not (is_number_ty (vty val))) (is_null val) (not (is_known val)))
 //@   fresh result
 //@   ensures[C02] copy: (and (not (= result 0)) (bf_same ($at<math/big.Float> result) (bf_of val)))
-//
-//@ func (*cty.RefinementBuilder).NewValue
-//@   trusted
-//@   ensures (wf_marks result)
 //
 //@ func cty.numericRangeArithmetic
 //@   trusted
